@@ -244,9 +244,8 @@ def run_property(prop, tier="quick", replay=None):
             if found:
                 break
         if found:
-            handle_hits(found)
-            # annotate the replay with what broke
-        else:
+            handle_hits(found)          # (hits that stem from a harness limit may all be dismissed here)
+        if not violations:
             path = C.write_replay(prop, {"property": prop, "kind": "no-failing-input-found", "broken": broken,
                                          "cases": [{"stream": d["stream"], "case": d["case"]} for d in all_dis[:5]],
                                          "searched_cases": searched, "seed": C.seed(), "tier": tier})
